@@ -424,32 +424,28 @@ def m_pathless_recreate(f, case, viol):
 
 
 def m_request_stale_entry(f, case, viol):
-    """mechanism (C20): a remote file P is deleted and re-created, and the application requests P by path before the engine has
-    taken in the re-creation event: the request is attached to the entry of the deleted file, the new file arrives as a
-    different entry that is not in the request set and is never downloaded.  The differing path must be such a P."""
-    plan = case.get("plan", [])
-    faulty = bool(case.get("faults") or case.get("fault_table"))
+    """mechanism (C20): a remote file P is deleted and re-created, and the application requests P (by path or id): the request is
+    attached to the entry of the deleted file, the new file arrives as a different entry that is not in the request set and is
+    never downloaded (or the merged listing misses it).  The differing path must be such a P that was also requested.
+    (A narrower form - request before the engine has taken in the re-creation - was tried in hour 14 and withdrawn: the unchanged
+    engine also fails, more rarely, after a complete intake.)"""
+    ops = user_ops(case)
     cand = set()
-    for i, u in enumerate(plan):
-        if not (u and u[0] == "U" and u[1] == 1 and u[2] == "delete"):
-            continue
-        for j in range(i + 1, len(plan)):
-            v = plan[j]
-            if not (v and v[0] == "U" and v[1] == 1 and v[2] == "create" and v[3] == u[3]):
-                continue
-            # the request must come before the engine has taken in the re-creation: no complete intake of the remote feed
-            # (an 'S 1' not limited by a preceding 'E 1 k') and no run-to-quiet between the re-creation and the request
-            for k in range(j + 1, len(plan)):
-                w = plan[k]
-                if _quiet(w):
-                    break
-                if w and w[0] == "S" and w[1] == 1 and not (plan[k - 1] and plan[k - 1][0] == "E" and plan[k - 1][1] == 1) and not faulty:
-                    break       # (in runs with injected faults an intake may have failed: there only a run-to-quiet counts)
-                if w and w[0] == "X" and w[1] in ("sync_path", "sync_oid") and w[2] == u[3]:
-                    cand.add(u[3])
-                    break
+    for i, u in enumerate(ops):
+        if u[1] == 1 and u[2] == "delete" and any(v[1] == 1 and v[2] == "create" and v[3] == u[3] for v in ops[i + 1:]):
+            cand.add(u[3])
+    req = set(it[2] for it in case.get("plan", []) if it and it[0] == "X" and it[1] in ("sync_path", "sync_oid"))
     paths = _diff_paths(viol)
-    return bool(paths) and all(p in cand for p in paths)
+    return bool(paths) and all(p in cand and p in req for p in paths)
+
+
+def m_smart_intake_fault(f, case, viol):
+    """mechanism (C20, runs with injected temporary errors): in on-demand mode the event manager calls the provider while it applies
+    an event (path lookup for the auto-sync predicate / request set); when that call fails the event has already been taken from
+    the feed, the provider's read position stands behind it, and it is never applied: a local edit or creation is never uploaded,
+    a remote change never fetched.  Evidence required in the violation: an intake step of that run that had been handed events
+    and in which an injected error hit the same side's provider ('intake_broken')."""
+    return bool(case.get("faults") or case.get("fault_table")) and bool(viol.get("intake_broken"))
 
 
 def m_mock_path_ci(f, case, viol):
@@ -632,7 +628,7 @@ def m_moved_out_race(f, case, viol):
     return _paths_related_to_moves(viol, ok, case)
 
 
-MATCHERS = {"content_revert": m_content_revert, "conflicted_blocks_rmdir": m_conflicted_blocks_rmdir, "dup_folder_discard": m_dup_folder_discard, "missing_resurrect": m_missing_resurrect, "pathless_recreate": m_pathless_recreate, "declined_conflict": m_declined_conflict, "mock_path_ci": m_mock_path_ci, "request_stale_entry": m_request_stale_entry, "late_parent_event": m_late_parent_event, "crash_dup_entry": m_crash_dup_entry, "boundary_folder_move": m_boundary_folder_move, "moved_out_race": m_moved_out_race, "crash_rename_over": m_crash_rename_over, "event_exc": m_event_exc, "half_transfer": m_half_transfer, "history": m_history, "rename_race": m_rename_race, "dirdelete_race": m_dirdelete_race}
+MATCHERS = {"smart_intake_fault": m_smart_intake_fault, "content_revert": m_content_revert, "conflicted_blocks_rmdir": m_conflicted_blocks_rmdir, "dup_folder_discard": m_dup_folder_discard, "missing_resurrect": m_missing_resurrect, "pathless_recreate": m_pathless_recreate, "declined_conflict": m_declined_conflict, "mock_path_ci": m_mock_path_ci, "request_stale_entry": m_request_stale_entry, "late_parent_event": m_late_parent_event, "crash_dup_entry": m_crash_dup_entry, "boundary_folder_move": m_boundary_folder_move, "moved_out_race": m_moved_out_race, "crash_rename_over": m_crash_rename_over, "event_exc": m_event_exc, "half_transfer": m_half_transfer, "history": m_history, "rename_race": m_rename_race, "dirdelete_race": m_dirdelete_race}
 
 
 def match_one(f, case, viol):
